@@ -264,10 +264,14 @@ def best_eval(**inp):
     class _B:
         def project(self, x): return x
     pb._bounds = _B()
-    with np.errstate(all="ignore"):
-        x, f, m = pb.best_eval(pen)
-    got = int(x[0])
     exp = _select_spec(Fl, Ml, tol, pen)
+    try:
+        with np.errstate(all="ignore"):
+            x, f, m = pb.best_eval(pen)
+    except Exception as e:  # noqa: best_eval is total on a non-empty filter (C08)
+        return {"reproduced": True, "observed": {"filter": list(zip(Fl, Ml)), "tol": tol, "penalty": pen, "exception": repr(e),
+                                                 "prescribed_index": exp}}
+    got = int(x[0])
     return {"reproduced": got != exp, "observed": {"filter": list(zip(Fl, Ml)), "tol": tol, "penalty": pen, "returned_index": got,
                                                    "prescribed_index": exp}}
 
@@ -546,3 +550,41 @@ def best_index_audit(fun=None, cub=None, ceq=None, penalty=0.0, best0=0, **_):
     ok = got == b
     return {"reproduced": not ok, "observed": {"best_index": got, "expected": b, "merit": [float(v) for v in merit], "violation": rv},
             "required": "the centre is the least-merit point, ties within rounding to the smaller violation (documented scan order)"}
+
+
+# ---- C12-C14: the SOLVE contract that Mode B assumes (Quadratic.solve_systems returns the solution of the interpolation system and
+# ---- leaves its right-hand side alone), on concrete floats --------------------------------------------------------------------------
+def solve_systems_check(xpt=None, rhs=None, **_):
+    from cobyqa.models import Quadratic, Interpolation
+    xpt = np.array(xpt, dtype=float)
+    rhs = np.array(rhs, dtype=float)
+    n, npt = xpt.shape
+    it = Interpolation.__new__(Interpolation)
+    it._debug = False
+    it._x_base = np.zeros(n)
+    it._xpt = xpt.copy()
+    it._lhs_cache = None
+    rhs0 = rhs.copy()
+    sol, ill = Quadratic.solve_systems(it, rhs)
+    obs = {"n": n, "npt": npt}
+    if not np.array_equal(rhs, rhs0):
+        obs["rhs_modified_by"] = float(np.max(np.abs(rhs - rhs0)))
+        return {"reproduced": True, "observed": obs, "required": "solve_systems leaves the right-hand sides of its caller untouched"}
+    from cobyqa.models import build_system
+    W = np.zeros((npt + n + 1, npt + n + 1))
+    W[:npt, :npt] = 0.5 * (xpt.T @ xpt) ** 2.0
+    W[:npt, npt] = 1.0
+    W[npt, :npt] = 1.0
+    W[:npt, npt + 1:] = xpt.T
+    W[npt + 1:, :npt] = xpt
+    am, rs, _ = build_system(it)
+    # (i) the matrix built is R W R for the scaling R it reports (so that R a^-1 R is the inverse of the theoretical matrix W)
+    RWR = rs[:, np.newaxis] * W * rs[np.newaxis, :]
+    dev = float(np.max(np.abs(am - RWR) / (np.abs(RWR) + 1e-300 + 1e-12 * np.max(np.abs(RWR)))))
+    # (ii) the vectors returned solve that scaled system up to rounding x its conditioning
+    z = sol / rs[:, np.newaxis]
+    cond = float(np.linalg.cond(am))
+    res = float(np.max(np.abs(am @ z - rs[:, np.newaxis] * rhs0)) / (np.max(np.abs(am)) * np.max(np.abs(z)) + np.max(np.abs(rs[:, np.newaxis] * rhs0)) + 1e-300))
+    obs.update(cond_scaled=cond, residual_scaled=res, matrix_deviation=dev, ill_conditioned=bool(np.any(ill)))
+    bad = bool(dev > 1e-9 or (cond < 1e10 and not np.any(ill) and res > 1e-13 * max(1.0, cond)))
+    return {"reproduced": bad, "observed": obs, "required": "the matrix built is R W R and the returned vectors solve the scaled system up to rounding x conditioning"}
